@@ -244,6 +244,28 @@ def rule_reset_on_entry(ck, F):
                          f"{b['path']} can read processed flags left over from an earlier call on the same FilesToRead ({why}): "
                          f"a repeated call returns a different (empty) document", fn=b["path"])
     ck.floor("R2", "public entry points reaching the flags", n, 1)
+    # .. and nothing else can: the library holds no process-wide or thread-wide mutable item (a `static` / `thread_local!` with a
+    # Cell, RefCell, Mutex, RwLock or atomic inside). Such an item outlives the call: what a run leaves in it (names already written,
+    # counters, caches keyed by content) makes the next run on the same thread differ. (A OnceLock / LazyLock of plain data is a
+    # constant computed late, not state.)
+    MUTABLE = ("std::cell::RefCell<", "std::cell::Cell<", "std::sync::Mutex<", "std::sync::RwLock<", "std::sync::atomic::Atomic",
+               "std::cell::UnsafeCell<", "std::cell::OnceCell<", "parking_lot::", "std::sync::mpsc::")
+    n_items = 0
+    for c in F.lib.items.get("consts", []):
+        pth = c["path"]
+        if "yaserde_tests" in pth or "::tests::" in pth or "{constant" in pth or "__RUST_STD_INTERNAL" in pth or "__rust_std_internal" in pth:
+            continue
+        n_items += 1
+        ty = c.get("ty") or ""
+        inner = [m_ for m_ in MUTABLE if m_ in ty]
+        if inner or ty.startswith("std::thread::LocalKey<") and inner:
+            ck.violation("R2", f"global-state:{pth.rsplit('::', 1)[-1]}", c.get("span") if "rustlib" not in str(c.get("span")) else pth,
+                         f"`{pth}` is a {'thread-local' if 'LocalKey' in ty else 'static'} item of type `{ty[:90]}`: it outlives the library call, so a "
+                         f"second generation on the same thread starts from what the first one left in it and can produce different output", fn=pth)
+    ck.count("R2:constant and static items of the library", n_items)
+    if not [o for o in ck.obligations if o["key"].split("|")[1] == "R2" and "global-state" in o["key"] and o["status"] == "violated"]:
+        ck.ok("R2", "no-global-state", "-", f"none of the {n_items} constant / static items of the library holds interior-mutable state")
+    ck.floor("R2", "constant and static items of the library", n_items, 1)
 
 
 def _reads_after(B, head, inside, reach, loaders, g):
